@@ -259,3 +259,80 @@ func pathLockMutants() []mutant {
 		setField("free-path-refused", func(e core.Event) bool { return e["ev"] == "Path" && e["a"] == "Open" && e["res"] == "ok" }, 0, "res", "lockfailed"),
 	}
 }
+
+// judgeWriter validates the writer-level traces (hooks of write.go) with WriterTrace.tla and
+// reports the deviations of the running check's property (plus the ones in mine).
+func judgeWriter(r *core.Run, traces []*core.Trace, mine ...string) {
+	var ws []*core.Trace
+	n := 0
+	for _, t := range traces {
+		if t != nil && len(t.Writer) > 0 {
+			ws = append(ws, &core.Trace{Name: t.Name + "-writer", Meta: t.Meta, Events: t.Writer})
+			n += len(t.Writer)
+		}
+	}
+	if len(ws) == 0 {
+		return
+	}
+	r.Extra["writer_traces"] = map[string]interface{}{"traces": len(ws), "events": n}
+	r.AddEvals(int64(n))
+	own := map[string]bool{r.Prop: true}
+	for _, m := range mine {
+		own[m] = true
+	}
+	runSelfTestN(r, "WriterTrace", "WriterTrace.cfg", ws, writerMutants())
+	rej := r.Judge(core.JudgeOpts{Module: "WriterTrace", Config: "WriterTrace.cfg", Timeout: 20 * time.Minute, HeapMB: 3000, Batch: 40000, MaxRej: 50}, ws)
+	reported := map[string]int{}
+	for _, d := range r.TakeDevs() {
+		name := d.Kind[len("dev:"):]
+		if !own[d.Prop] {
+			continue
+		}
+		sig := "writer:" + name
+		if reported[sig] >= 3 {
+			continue
+		}
+		reported[sig]++
+		path := r.SaveReplay(safeName(d.Trace.Name)+".ndjson", d.Trace.Serialize())
+		r.Violate(core.Violation{Signature: sig, What: d.Describe() + fmt.Sprintf(" [%v]", d.Trace.Meta), Replay: path})
+	}
+	for _, rj := range rej {
+		r.Break("writer trace could not be followed: %s", rj.Describe())
+	}
+}
+
+func writerMutants() []mutant {
+	isW := func(e core.Event) bool { return e["ev"] == "Written" && e["err"] == false }
+	return []mutant{
+		{"writes-to-one-page-swapped", func(evs []core.Event) ([]core.Event, bool) {
+			// two Written events of the same page: swap them
+			for i, a := range evs {
+				if !isW(a) {
+					continue
+				}
+				for j := i + 1; j < len(evs) && j < i+40; j++ {
+					if evs[j]["ev"] == "Synced" || evs[j]["ev"] == "Reset" {
+						break
+					}
+					if isW(evs[j]) && fmt.Sprint(evs[j]["pg"]) == fmt.Sprint(a["pg"]) && fmt.Sprint(evs[j]["h"]) != fmt.Sprint(a["h"]) {
+						evs[i], evs[j] = evs[j], evs[i]
+						return evs, true
+					}
+				}
+			}
+			return nil, false
+		}},
+		{"sync-before-its-writes", func(evs []core.Event) ([]core.Event, bool) {
+			// move a Synced event in front of the Written event preceding it
+			for i := 1; i < len(evs); i++ {
+				if evs[i]["ev"] == "Synced" && isW(evs[i-1]) {
+					evs[i], evs[i-1] = evs[i-1], evs[i]
+					return evs, true
+				}
+			}
+			return nil, false
+		}},
+		setField("unexplained-write-error", func(e core.Event) bool { return isW(e) && e["inj"] == false }, 3, "err", true),
+		setField("unexplained-sync-error", func(e core.Event) bool { return e["ev"] == "Synced" && e["err"] == false && e["inj"] == false }, 1, "err", true),
+	}
+}
